@@ -1,6 +1,7 @@
 import ParryModel.Field
 import ParryModel.Shapes
 import ParryModel.C15.Model
+import ParryModel.C15.Cyclic
 /-!
 # C15 property theorems (2-D predicates), for every linearly ordered field.
 
@@ -14,9 +15,6 @@ open Model Model.C15
 variable {K : Type} [Field K] [LinearOrder K] [IsStrictOrderedRing K] (sq : K → K)
 
 /-! ## orientation2d -/
-
-/-- twice the signed area of the triangle `(a, b, c)`: `(b - a) × (c - a)`; positive = counter-clockwise -/
-def area2 (a b c : V2 K) : K := (b.x - a.x) * (c.y - a.y) - (b.y - a.y) * (c.x - a.x)
 
 theorem orientation2d_spec (a b c : V2 K) (eps : K) (he : 0 ≤ eps) :
     letI := fieldNum K sq
